@@ -43,6 +43,11 @@ def execute(case):
     tc = "C*8" if level == "1.1" else "IU2"
     # a shorter and a longer image after the first one (state must not leak from image to image)
     images = [synth.image_spec("HH", None, L, P, tc), synth.image_spec("HV", None, max(1, L - 1), P + 1, tc), synth.image_spec("VV", None, L + 2, P, tc)]
+    if case.get("bursts"):
+        # SPECAN-style images whose descriptor holds a burst layout that is consistent with the line count
+        nb, lb = case["bursts"]
+        hdr = {"prefix_suffix_data_locators.number_of_burst_data": nb, "prefix_suffix_data_locators.number_of_lines_per_burst": lb, "scansar_burst_data_information.number_of_overlap_lines_with_adjacent_bursts": 1}
+        images = [synth.image_spec("HH", "B1", nb * lb, P, tc, header=hdr), synth.image_spec("HV", "B1", nb * lb, P, tc, header=hdr)]
     spec = synth.product_spec(level, images=images)
     files, _ = synth.build(spec)
     if case.get("pad"):  # bytes behind the last record of every image (padding to a block size)
@@ -94,6 +99,8 @@ def plan(tier):
             for fs in ("mcfs", "local") if tier == "thorough" else ("mcfs",):
                 cases.append({"level": level, "L": L, "P": 3, "fs": fs, "cache_rpc": None})
             if L in (3, 5):
+                for nb, lb in ((3, 4), (4, 3), (2, 8)):
+                    cases.append({"level": level, "L": nb * lb, "P": 2, "fs": "mcfs", "cache_rpc": None if L == 3 else 5, "bursts": [nb, lb]})
                 for pad in (1, 512):
                     cases.append({"level": level, "L": L + 5, "P": 3, "fs": "mcfs", "cache_rpc": None, "pad": pad})
             if L == 6:
@@ -109,7 +116,7 @@ def plan(tier):
 def run(res, tier, seed):
     res.rule = (
         "L in 1..6 (thorough: 1..10) x rpc in {1..L+4, 1024, 1e9} x level {1.1 (C*8), 1.5 (IU2)}, three images of different size (shorter and longer than the first) per product;"
-        " plus a 100-line product (reads touching up to 100 chunks) at rpc {1,2,3,7,33,99,100,1024} and a 1100-line (1.5) / 1030-line (1.1) product at rpc {1,7,256,1023,1024,1025,L,4096}; image files with 1 / 512 bytes of padding behind the last record; every tree fully loaded and compared leaf by leaf with the rpc=1 tree (all pairs for L<=3); cache legs open the"
+        " plus a 100-line product (reads touching up to 100 chunks) at rpc {1,2,3,7,33,99,100,1024} and a 1100-line (1.5) / 1030-line (1.1) product at rpc {1,7,256,1023,1024,1025,L,4096}; SPECAN-style images whose burst layout is consistent with the line count (3x4, 4x3, 2x8), with and without a cache; image files with 1 / 512 bytes of padding behind the last record; every tree fully loaded and compared leaf by leaf with the rpc=1 tree (all pairs for L<=3); cache legs open the"
         " same product after create_cache=True at another rpc. Every case compares >= 8 trees, all non-trivial."
     )
     res.assumptions = ["identity of all pairs for L>3 follows from comparison with rpc=1 by transitivity"]
